@@ -130,6 +130,7 @@ class AbstractCodeGen(object):
                        'ipAdEntNetMask': [('IP-MIB', 'ipAdEntNetMask')],
                        'ipAdEntBcastAddr': [('IP-MIB', 'ipAdEntBcastAddr')],
                        'ipAdEntReasmMaxSize': [('IP-MIB', 'ipAdEntReasmMaxSize')],
+                       'ipRoutingDiscards': [('IP-MIB', 'ipRoutingDiscards')],
                        'ipNetToMediaTable': [('IP-MIB', 'ipNetToMediaTable')],
                        'ipNetToMediaEntry': [('IP-MIB', 'ipNetToMediaEntry')],
                        'ipNetToMediaIfIndex': [('IP-MIB', 'ipNetToMediaIfIndex')],
@@ -227,6 +228,7 @@ class AbstractCodeGen(object):
             dict(commonSyms['RFC1158-MIB/RFC1213-MIB']),
                  (('nullSpecific', [('SNMPv2-SMI', 'zeroDotZero')]),
                   ('ipRoutingTable', [('RFC1213-MIB', 'ipRouteTable')]),
+                  ('ipAdEntReasmMaxSiz', [('IP-MIB', 'ipAdEntReasmMaxSize')]),
                   ('ipRouteEntry', [('RFC1213-MIB', 'ipRouteEntry')]),
                   ('ipRouteDest', [('RFC1213-MIB', 'ipRouteDest')]),
                   ('ipRouteIfIndex', [('RFC1213-MIB', 'ipRouteIfIndex')]),
